@@ -39,11 +39,16 @@ Proof.
 Qed.
 
 Definition case_table_ok (c : case) : bool :=
-  match c with CTree _ _ uris _ _ _ _ => table_idem uris | CBytes _ _ _ => true end.
+  match c with CTree _ _ uris _ _ _ _ => table_idem uris | CBytes _ _ _ => true
+               | CWs _ (Some (_, uris)) _ => table_idem uris | CWs _ None _ => true end.
 
 Theorem model_meets_check c : case_table_ok c = true -> check (model_case c) = true.
 Proof.
-  destruct c as [dom j uris t y rt ry|n p u]; cbn [model_case check case_table_ok]; [|reflexivity].
+  destruct c as [dom j uris t y rt ry|n p u|dom [[j uris]|] r]; cbn [model_case check case_table_ok];
+    [|reflexivity| |reflexivity].
+  2:{ intros Ht. apply table_idem_sound in Ht.
+      destruct (decode_any (mk_cx uris) case_fuel j) as [e| |] eqn:E; cbn; auto.
+      exfalso. eapply (decode_any_no_panic (mk_cx uris)); eauto. }
   intros Ht. apply table_idem_sound in Ht. set (cx := mk_cx uris) in *.
   assert (Hfx : cx_fix cx = repaired) by reflexivity.
   rewrite stable_any by assumption. rewrite andb_true_r.
